@@ -15,6 +15,6 @@ __attribute__((used, visibility("default"))) const char* __ubsan_default_options
     return "exitcode=77:halt_on_error=1:print_stacktrace=1";
 }
 __attribute__((used, visibility("default"))) const char* __tsan_default_options() {
-    return "exitcode=77:halt_on_error=0:report_signal_unsafe=0:report_thread_leaks=0:second_deadlock_stack=1:history_size=4";
+    return "exitcode=77:halt_on_error=0:report_signal_unsafe=0:report_thread_leaks=0:detect_deadlocks=0:history_size=4";
 }
 }
